@@ -96,7 +96,10 @@ def panic_rule(ctx, rep, rule, facts, root_pred, void_rules=(), only=None):
                         sim = len(mine & theirs) / max(1, len(mine | theirs))
                         best.append((sim, e_))
                 best.sort(key=lambda x: -x[0])
-                if best and best[0][0] >= 0.5 and (len(best) == 1 or best[0][0] > best[1][0]):
+                # entries that differ only by their #n occurrence suffix are the same reviewed fact: a tie among them is no ambiguity
+                base = lambda e_: e_["key"].split("#")[0]
+                rivals = [b for b in best[1:] if base(b[1]) != base(best[0][1])] if best else []
+                if best and best[0][0] >= 0.5 and (not rivals or best[0][0] > rivals[0][0]):
                     ent = best[0][1]
             if ent is not None:
                 used.add(ent["key"])
